@@ -13,47 +13,6 @@ Arguments N.leb : simpl never.
 Arguments N.of_nat : simpl never.
 Arguments N.max : simpl never.
 
-(* ------------------------------------------------------------------ a generic induction over poll_next *)
-Lemma conn_loop_gen (P : st -> Prop) c x :
-  (forall s nfy, P s -> e_alive (cn s x) = true -> P (close x nfy s)) ->
-  (forall s, P s -> e_alive (cn s x) = true -> killed s = false ->
-             match out_phase c x s with (s1, true) => P (close x true s1) | (s1, false) => P s1 end) ->
-  (forall s, P s -> e_alive (cn s x) = true -> can_reserve c x s = false -> P (set_res x false true s)) ->
-  (forall s, P s -> e_alive (cn s x) = true -> can_reserve c x s = true -> P (set_res x true false s)) ->
-  (forall s n rest, P s -> e_alive (cn s x) = true -> e_res (cn s x) = true -> e_rwait (cn s x) = false ->
-      killed s = false -> carrier (glo s (negb x)) = n :: rest -> n_len n <= c_max (ecf c x) ->
-      P (push_nq x n (slo s (negb x) (mkL (wgate (glo s (negb x))) (rgate (glo s (negb x))) rest)))) ->
-  forall fuel s, P s -> e_alive (cn s x) = true -> P (conn_loop fuel c x s).
-Proof.
-  intros Hclose Hout Hres0 Hres1 Hread.
-  induction fuel as [|fuel IH]; intros s H Ha; cbn [conn_loop]; [exact H|].
-  fold (cn s x). destruct (e_shut (cn s x)); [apply Hclose; assumption|].
-  destruct (killed s) eqn:Ek; [apply Hclose; assumption|].
-  pose proof (Hout s H Ha Ek) as H1.
-  pose proof (out_phase_frame c x s Ha) as F. cbn zeta in F.
-  destruct (out_phase c x s) as [s1 refused]. cbn [fst] in *.
-  destruct F as (Fa & Fk & Fp & _).
-  destruct refused; [exact H1|].
-  destruct (can_reserve c x s1) eqn:Ecr; cbn [negb]; [|apply Hres0; assumption].
-  pose proof (Hres1 s1 H1 Fa Ecr) as H2.
-  assert (Fa2 : e_alive (cn (set_res x true false s1) x) = true).
-  { unfold set_res, cn in *. destruct x; cbn in *; exact Fa. }
-  assert (Fr2 : e_res (cn (set_res x true false s1) x) = true /\ e_rwait (cn (set_res x true false s1) x) = false).
-  { unfold set_res, cn in *. destruct x; cbn in *; split; reflexivity. }
-  assert (Fk2 : killed (set_res x true false s1) = false).
-  { unfold set_res. destruct x; cbn; congruence. }
-  set (s2 := set_res x true false s1) in *.
-  destruct (rgate (glo s2 (negb x))) eqn:Erg; cbn [negb]; [|exact H2].
-  destruct (carrier (glo s2 (negb x))) as [|n rest] eqn:Ec.
-  - destruct (wclosed s2 (negb x)); [apply Hclose; assumption|exact H2].
-  - destruct (c_max (ecf c x) <? n_len n) eqn:Emx; [apply Hclose; assumption|].
-    apply IH.
-    + replace (mkL (wgate (glo s2 (negb x))) true rest)
-        with (mkL (wgate (glo s2 (negb x))) (rgate (glo s2 (negb x))) rest) by (now rewrite Erg).
-      apply Hread; try assumption; try tauto. lia.
-    + unfold push_nq, slo, cn in *. destruct x; cbn in *; exact Fa2.
-Qed.
-
 (* ------------------------------------------------------------------ Opened / Closed bookkeeping *)
 Fixpoint alt_state (st0 : bool) (l : list hev) : option bool :=
   match l with
@@ -137,7 +96,6 @@ Definition ekey_of (s : st) (z : bool) : ekey :=
 Record InvK (mx my cap : N) (k : ekey) : Prop := mkInvK {
   (* the user channel never holds more than its capacity, counting the reserved slot *)
   e1_res : len (k_nq k) + b2n (k_res k) <= cap;
-  e1_rw : k_rwait k = true -> k_res k = false;
   (* sizes *)
   e1_out : Forall (fun n => n_len n <= mx) (k_car k ++ k_sk k);
   e1_in : Forall (fun n => n_len n <= mx /\ n_len n <= my) (k_del k ++ k_nq k);
@@ -195,15 +153,13 @@ Definition kres (k : ekey) (r w : bool) : ekey :=
       (k_alive k) (k_per k) (k_peers k) (k_fclog k) (k_clog k).
 
 Lemma kres_inv mx my cap k r w : InvK mx my cap k ->
-  (r = true -> w = false /\ (k_res k = true \/ len (k_nq k) < cap)) ->
-  (r = false -> True) ->
+  (r = true -> k_res k = true \/ len (k_nq k) < cap) ->
   InvK mx my cap (kres k r w).
 Proof.
-  intros H Hr _. destruct H. constructor; cbn; auto.
-  - destruct r; cbn.
-    + destruct (Hr eq_refl) as [_ [E|E]]; [rewrite E in e1_res0; cbn in e1_res0; lia|lia].
-    + destruct (k_res k); cbn in *; lia.
-  - intros Hw. destruct r; [|reflexivity]. destruct (Hr eq_refl). congruence.
+  intros H Hr. destruct H. constructor; cbn; auto.
+  destruct r; cbn.
+  - destruct (Hr eq_refl) as [E|E]; [rewrite E in e1_res0; cbn in e1_res0; lia|lia].
+  - destruct (k_res k); cbn in *; lia.
 Qed.
 
 Definition kpush (k : ekey) (n : notif) : ekey :=
@@ -256,13 +212,13 @@ Qed.
 (* the handle takes r out of its channel (dropping what its filter rejects); the Connection parked
    in poll_reserve is handed the freed slot *)
 Definition kscan (k : ekey) (r : option notif) (q : list notif) (ho : bool) : ekey :=
-  mkK q (if ho then true else k_res k) (if ho then false else k_rwait k) (k_car k) (k_sk k)
+  mkK q (if ho then true else k_res k) (if ho then true else k_rwait k) (k_car k) (k_sk k)
       (k_del k ++ opt_list r) (k_dper k ++ match r with Some _ => [k_peers k] | None => [] end)
       (k_seen k) [] (k_alive k) (k_per k) (k_peers k) (k_fclog k) (k_clog k).
 
 Lemma kscan_inv mx my cap k b r q ho : InvK mx my cap k -> k_evs k = [] ->
   h_scan true (k_peers k) b (k_nq k) = (r, q) ->
-  (ho = true -> len q < len (k_nq k) /\ k_rwait k = true) ->
+  (ho = true -> len q < len (k_nq k) /\ k_res k = false) ->
   InvK mx my cap (kscan k r q ho).
 Proof.
   intros H Ee Hs Hho. destruct (h_scan_spec _ _ _ _ _ Hs) as [sk [Eq [Fsk Hr]]].
@@ -270,9 +226,8 @@ Proof.
   { rewrite Eq. rewrite !len_app. lia. }
   destruct H. rewrite Ee in *. constructor; cbn; auto.
   - destruct ho.
-    + destruct (Hho eq_refl) as [A B]. rewrite (e1_rw0 B) in e1_res0. cbn in *. lia.
+    + destruct (Hho eq_refl) as [A B]. rewrite B in e1_res0. cbn in *. lia.
     + destruct (k_res k); cbn in *; lia.
-  - destruct ho; [discriminate|assumption].
   - rewrite Eq in e1_in0. rewrite !Forall_app_iff in *. tauto.
   - destruct r as [n|]; cbn; [|now rewrite !app_nil_r].
     rewrite map_app. cbn. rewrite e1_conf0. f_equal. specialize (Hr n eq_refl).
@@ -351,10 +306,11 @@ Proof.
   - cbn. exact HN.
 Qed.
 
-Lemma out_phase_invB c x s : InvB c s -> e_alive (cn s x) = true -> InvB c (fst (out_phase c x s)).
+Lemma out_phase_invB c x b s : InvB c s -> e_alive (cn s x) = true -> InvB c (fst (out_phase c x b s)).
 Proof.
   intros H Ha z. unfold InvE.
-  pose proof (a_loop_out (S (opt_len (e_cur (ec (gep s x))) + length (e_sq (ec (gep s x))) + length (e_aq (ec (gep s x)))))
+  pose proof (a_loop_out (opt_len (e_cur (ec (gep s x))) +
+                          N.to_nat (N.min b (len (e_sq (ec (gep s x))) + len (e_aq (ec (gep s x))) + 1)))%nat
                 (c_max (ecf c x)) (wgate (glo s x))
                 (mkLst (e_cur (ec (gep s x))) (e_sq (ec (gep s x))) (e_aq (ec (gep s x))) (e_sk (ec (gep s x)))
                        (carrier (glo s x)) (e_hints (ec (gep s x))) (bad s))) as O.
@@ -380,13 +336,13 @@ Proof.
 Qed.
 
 Lemma set_res_invB c x r w s : InvB c s ->
-  (r = true -> w = false /\ can_reserve c x s = true) -> InvB c (set_res x r w s).
+  (r = true -> can_reserve c x s = true) -> InvB c (set_res x r w s).
 Proof.
   intros H Hr z. unfold InvE. destruct (Bool.eqb z x) eqn:E.
   - apply eqb_prop in E. subst z.
     replace (ekey_of (set_res x r w s) x) with (kres (ekey_of s x) r w) by (destruct x; reflexivity).
-    apply kres_inv; [apply H| |trivial].
-    intros Er. destruct (Hr Er) as [Ew Hc]. split; [exact Ew|].
+    apply kres_inv; [apply H|].
+    intros Er. pose proof (Hr Er) as Hc.
     unfold can_reserve in Hc. apply orb_true_iff in Hc. destruct Hc as [Hc|Hc]; [left|right].
     + destruct x; exact Hc.
     + apply N.ltb_lt in Hc. destruct x; exact Hc.
@@ -410,16 +366,16 @@ Proof.
     eapply kcar_tail_inv; [apply H|]. destruct x; exact Ec.
 Qed.
 
-Lemma conn_poll_invB c x s : InvB c s -> InvB c (conn_poll c x s).
+Lemma conn_poll_invB c x b s : InvB c s -> InvB c (conn_poll c x b s).
 Proof.
   intros H. unfold conn_poll. fold (cn s x). destruct (e_alive (cn s x)) eqn:Ea; [|exact H].
   apply (conn_loop_gen (InvB c)); auto.
   - intros. apply close_invB; assumption.
-  - intros s0 H0 Ha0 Hk0. pose proof (out_phase_invB c x s0 H0 Ha0) as Q.
-    pose proof (out_phase_frame c x s0 Ha0) as F. cbn zeta in F.
-    destruct (out_phase c x s0) as [s1 [|]]; cbn [fst] in *; [apply close_invB; [exact Q|tauto]|exact Q].
+  - intros s0 b0 H0 Ha0 Hk0. pose proof (out_phase_invB c x b0 s0 H0 Ha0) as Q.
+    pose proof (out_phase_frame c x b0 s0 Ha0) as F. cbn zeta in F.
+    destruct (out_phase c x b0 s0) as [s1 [|]]; cbn [fst] in *; [apply close_invB; [exact Q|tauto]|exact Q].
   - intros. apply set_res_invB; [assumption|discriminate].
-  - intros. apply set_res_invB; [assumption|]. intros _. split; [reflexivity|assumption].
+  - intros. apply set_res_invB; [assumption|]. intros _. assumption.
   - intros. apply read_invB; assumption.
 Qed.
 
@@ -438,21 +394,24 @@ Proof.
   - destruct (h_scan true (e_peers (eh (gep s x))) _ (e_nq (eh (gep s x)))) as [r q] eqn:Es.
     unfold InvE. destruct (Bool.eqb z x) eqn:E.
     + apply eqb_prop in E. subst z.
-      set (ho := (len q <? len (e_nq (eh (gep s x)))) && e_rwait (ec (gep s x))).
+      set (ho := (len q <? len (e_nq (eh (gep s x)))) && e_rwait (ec (gep s x)) && negb (e_res (ec (gep s x)))).
       assert (V : InvK (c_max (ecf c x)) (c_max (ecf c (negb x))) (c_n (ecf c x)) (kscan (ekey_of s x) r q ho)).
       { eapply kscan_inv; [apply H| | |].
         - destruct x; exact Ee.
         - destruct x; exact Es.
-        - unfold ho. intros Eh. apply andb_true_iff in Eh. destruct Eh as [A B].
+        - unfold ho. intros Eh. apply andb_true_iff in Eh. destruct Eh as [Eh B].
+          apply andb_true_iff in Eh. destruct Eh as [A _]. apply negb_true_iff in B.
           apply N.ltb_lt in A. split; [destruct x; exact A|destruct x; exact B]. }
       destruct r as [n|]; cbn [fst]; unfold hand_over.
       * replace (e_rwait (ec (gep (set_hnd x _ _ s) x))) with (e_rwait (ec (gep s x))) by (destruct x; reflexivity).
+        replace (e_res (ec (gep (set_hnd x _ _ s) x))) with (e_res (ec (gep s x))) by (destruct x; reflexivity).
         fold ho. destruct ho eqn:Eho.
         -- replace (ekey_of _ x) with (kscan (ekey_of s x) (Some n) q true); [exact V|].
            destruct x; cbn; unfold kscan, ekey_of, cn, hn, gl; cbn in *; rewrite ?Ee; reflexivity.
         -- replace (ekey_of _ x) with (kscan (ekey_of s x) (Some n) q false); [exact V|].
            destruct x; cbn; unfold kscan, ekey_of, cn, hn, gl; cbn in *; rewrite ?Ee; reflexivity.
       * replace (e_rwait (ec (gep (set_hnd x _ _ s) x))) with (e_rwait (ec (gep s x))) by (destruct x; reflexivity).
+        replace (e_res (ec (gep (set_hnd x _ _ s) x))) with (e_res (ec (gep s x))) by (destruct x; reflexivity).
         fold ho. destruct ho eqn:Eho.
         -- replace (ekey_of _ x) with (kscan (ekey_of s x) None q true); [exact V|].
            destruct x; cbn; unfold kscan, ekey_of, cn, hn, gl; cbn in *; rewrite ?Ee, ?app_nil_r; reflexivity.
